@@ -1,4 +1,5 @@
 import Convergen.Props.C04
+import Convergen.Props.Cover
 /-!
 # Every right-hand side is rooted in a source operand (C02: "the value denoted by that field's source")
 
@@ -348,5 +349,11 @@ theorem structToStruct_rooted : ∀ (fuel : Nat) (l r : Node) (args : List Node)
     refine go_rooted ctx _ args ?_ l r _ ss h
     intro l' r' body hb
     exact ih l' r' args body hb
+
+/-- non-vacuity: on the two-level example of `Props/Cover` the body reads the nested source struct
+(for its nil guard), one of its members and a top-level member — all rooted in `src` -/
+example : (match Cover.toyCtx.structToStruct 3 (.root "dst" 2) (.root "src" 4) [] with
+    | .ok ss => (readsList ss).map fun n => (n.assignExpr Cover.toyEnv, n.rootOf == Node.root "src" 4)
+    | _ => []) = [("src.In", true), ("src.In.X", true), ("src.N", true)] := by decide
 
 end Convergen.Props.Rooted
